@@ -164,6 +164,15 @@ def gen_plan(seed, tier):
         # is a miss like any other (buffered if a slot is free)
         steps[-1].update(acts=[["output", W.OFPP_TABLE, 0]],
                          in_port=r.pick([W.OFPP_NONE, W.OFPP_NONE, port]))
+  rdd = Rng(mix(seed, "decoy"))
+  for st in steps:
+    if st["op"] == "packet_out" and "buffer" in st \
+        and st.get("badact") is None and rdd.chance(0.15):
+      # the message names a buffer AND carries data (another frame): the
+      # data is "only meaningful if buffer_id == -1", so this is a use of
+      # the buffer like any other -- that packet goes out and is freed, or
+      # the id is unknown and nothing goes out
+      st["decoy"] = rdd.pick(frames)[0]
   rdp = Rng(mix(seed, "delport"))
   if rdp.chance(0.25) and nports > 1:
     # somewhere in the history a port is unplugged, possibly while packets
